@@ -47,9 +47,14 @@ def build_source(kind, n, root):
         p = root / ("src_%d.rtdc" % n)
         if not p.exists():
             gen.write_rtdc(p, list(range(1, n + 1)), feats=FEATS_FILE,
-                           logs={"srclog": SRCLOG},
+                           # (a file that was exported before holds logs
+                           # and tables whose names carry the prefix)
+                           logs={"srclog": SRCLOG,
+                                 "src_srclog": ["an older generation"]},
                            tables={"srctab": {"a": np.arange(4.0),
-                                              "b": np.arange(4.0) + 7}})
+                                              "b": np.arange(4.0) + 7},
+                                   "src_srctab": {"a": np.arange(3.0),
+                                                  "b": np.arange(3.0) - 5}})
         return dclab.new_dataset(p), list(range(1, n + 1)), list(FEATS_FILE)
     if kind == "lazy":
         ids = list(range(1, n + 1))
@@ -203,18 +208,23 @@ def _replay(job):
                             out.append(("metadata not carried over",
                                         "%s:%s %r vs %r" % (sec, k, v2, v)))
                 if kind == "hdf5":
-                    # (the exporter may prefix the names)
-                    lg = [k for k in ex.logs.keys() if k.endswith("srclog")]
-                    if not lg or list(ex.logs[lg[0]]) != SRCLOG:
-                        out.append(("logs not carried over", str(
-                            list(ex.logs.keys()))))
-                    tb = [k for k in ex.tables.keys()
-                          if k.endswith("srctab")]
-                    if not tb or not np.array_equal(
-                            np.asarray(ex.tables[tb[0]]["b"]).ravel(),
-                            np.arange(4.0) + 7):
-                        out.append(("tables not carried over", str(
-                            list(ex.tables.keys()))))
+                    # every log / table of the source is there under the
+                    # prefixed name, with its own content
+                    want_logs = {"src_srclog": SRCLOG,
+                                 "src_src_srclog": ["an older generation"]}
+                    for nm, lines in want_logs.items():
+                        if nm not in ex.logs or list(ex.logs[nm]) != lines:
+                            out.append(("logs not carried over", "%s: %s" % (
+                                nm, {k: len(v) for k, v in ex.logs.items()})))
+                            break
+                    want_tabs = {"src_srctab": np.arange(4.0) + 7,
+                                 "src_src_srctab": np.arange(3.0) - 5}
+                    for nm, col in want_tabs.items():
+                        if nm not in ex.tables or not np.array_equal(
+                                np.asarray(ex.tables[nm]["b"]).ravel(), col):
+                            out.append(("tables not carried over", str(
+                                list(ex.tables.keys()))))
+                            break
         op.unlink()
         # --- tsv
         sc = [f for f in feats if f in ("deform", "area_um", "fl1_max",
